@@ -9,6 +9,9 @@
 #define PREFIX_U 0
 #endif
 #define TOT (NB + 1)
+#ifndef NODECODE   /* 1: unit built with ARDUINOJSON_DECODE_UNICODE=0 - a \\u escape is kept verbatim (backslash, u, the following bytes as ordinary characters) */
+#define NODECODE 0
+#endif
 #ifndef HAVE_POS   /* 0 for the library's own readers, whose position is not observable */
 #define HAVE_POS 1
 #endif
@@ -29,6 +32,7 @@ static void reference(const uint8_t* in, struct Ref* r) {
       else { if (have_high) { r->paired_ok = 0; have_high = 0; } r->o[r->olen++] = c; }
     } else if (st == S_BS) {
       if (c == 0) { r->code = INCOMPLETE; r->consumed = i + 1; }
+      else if (c == 'u' && NODECODE) { r->o[r->olen++] = '\\'; r->o[r->olen++] = 'u'; st = S_NORMAL; }
       else if (c == 'u') { st = S_HEX; hexn = 0; unit = 0; }
       else { uint8_t u = ref_unescape(c); if (!u) { r->code = INVALID; r->consumed = i + 1; } else { if (have_high) { r->paired_ok = 0; have_high = 0; } r->o[r->olen++] = u; st = S_NORMAL; } }
     } else {
